@@ -22,6 +22,10 @@ type truncCase struct {
 	// over-estimate class (fits_test.go), so "a message that already fits keeps all its records" is
 	// asserted for it too. Decided by the generator.
 	FitsAll bool `json:",omitempty"`
+	// Spell: seed of wiremodel.Spelling - how the names of the reply are WRITTEN in the library's
+	// structs (0: the canonical spelling; else one name in four carries \DDD / \c escapes for octets
+	// that need none). Same octets on the wire, different text: different sharing between names.
+	Spell uint64 `json:",omitempty"`
 }
 
 // identity of a record for the prefix check: its uncompressed RFC encoding
@@ -68,7 +72,9 @@ func checkTrunc(c truncCase) error {
 	if err != nil || len(w) > 400000 {
 		return nil
 	}
+	restore := wm.Spelling(c.Spell)
 	lib, err := wm.MsgToLib(m, c.Comp)
+	restore()
 	if err != nil {
 		return nil
 	}
@@ -85,7 +91,14 @@ func checkTrunc(c truncCase) error {
 	bw, _ := wm.Encode(base)
 	// ... and compressed, as the library itself packs them (several questions under one long name
 	// only fit thanks to compression)
-	if bl, err := wm.MsgToLib(base, true); err == nil {
+	// (taken from the message itself, so that the names are spelled as they are in the reply)
+	{
+		bl := orig.Copy()
+		bl.Answer, bl.Ns, bl.Extra = nil, nil, nil
+		if o := orig.IsEdns0(); o != nil {
+			bl.Extra = []dns.RR{dns.Copy(o)}
+		}
+		bl.Compress = true
 		if bp, err := bl.Pack(); err == nil && len(bp) < len(bw) {
 			bw = bp
 		}
@@ -268,7 +281,11 @@ func checkTrunc(c truncCase) error {
 }
 
 // boundary sizes: the compressed packed length of every record prefix (OPT kept), +-1
-func pickSize(t *rapid.T, m wm.Msg) int {
+func pickSize(t *rapid.T, m wm.Msg) int { return pickSizeSpelled(t, m, 0) }
+
+// pickSizeSpelled: the boundaries are those of the reply as it is written under the spelling seed
+// (Spelling is a pure function of the seed and the order of the names, which is that of checkTrunc).
+func pickSizeSpelled(t *rapid.T, m wm.Msg, spell uint64) int {
 	switch rapid.IntRange(0, 7).Draw(t, "sizek") {
 	case 0, 1:
 		return rapid.IntRange(0, 65535).Draw(t, "size")
@@ -276,7 +293,9 @@ func pickSize(t *rapid.T, m wm.Msg) int {
 		// the sizes callers actually pass, and the ends of the range
 		return rapid.SampledFrom([]int{0, 511, 512, 513, 1232, 1452, 4096, 16383, 16384, 16385, 32767, 65534, 65535, 65535, 65536, 1 << 20}).Draw(t, "wellknownsize")
 	}
+	restore := wm.Spelling(spell)
 	lib, err := wm.MsgToLib(m, true)
+	restore()
 	if err != nil {
 		return 512
 	}
